@@ -10,7 +10,9 @@ From Verif Require Import Pool.
 Import ListNotations.
 Local Open Scope Z_scope.
 
-Inductive outcome := POk | PInvalid | PConnErr | PNoConn | PShut | PSame | PEmptyV2.
+Inductive outcome := POk | PInvalid | PConnErr | PNoConn | PShut | PSame | PEmptyV2
+  | PDeadErr     (* the connection is already defunct when its USE is answered (ConnectionShutdown from error_all_requests) *)
+  | PLost.       (* HostConnection whose connection died before the switch: no connection, a _replace task is queued *)
 
 Record kpool := mkK {
   k_out : outcome;
@@ -30,6 +32,7 @@ Definition init_pool (o : outcome) : kpool :=
   | PNoConn => mkK o false 1 false false (-1) (-1) false false (-1)
   | PEmptyV2 => mkK o true 1 false false (-1) (-1) false false (-1)
   | PShut => mkK o false 1 false true 1 0 false false 1
+  | PLost => mkK o false 1 false false 1 0 false false 1
   | PSame => mkK o false 1 true false 2 0 false false 2
   | _ => mkK o false 1 true false 1 0 false false 1
   end.
